@@ -1233,6 +1233,10 @@ ws_stop(void *arg)
 			nni_mtx_lock(&d->mtx);
 			nni_list_node_remove(&ws->node);
 			ws->dialer = NULL;
+			// ws_dialer_stop waits for the pending ones to go.
+			if (nni_list_empty(&d->wspend)) {
+				nni_cv_wake(&d->cv);
+			}
 			nni_mtx_unlock(&d->mtx);
 		}
 	}
